@@ -2,6 +2,7 @@ package props
 
 import (
 	"fmt"
+	"github.com/orda-io/orda/client/pkg/orda"
 	"math/rand"
 
 	"vh/core"
@@ -202,6 +203,40 @@ func randomPhase(c *core.Case, h *crdt.Hist, steps int, quiescent *int) (string,
 	return "", ""
 }
 
+// arrayContainerPhase: see runC01.
+func arrayContainerPhase(c *core.Case, h *crdt.Hist, steps int) (string, string) {
+	r := c.Rng
+	for s := 0; s < steps; s++ {
+		rep := h.Reps[r.Intn(len(h.Reps))]
+		switch k := r.Intn(12); {
+		case k < 5:
+			ch, err := rep.DT.(orda.Document).GetFromObject("a")
+			if err != nil || ch == nil {
+				continue
+			}
+			arr, _ := ch.GetValue().([]interface{})
+			if _, _, sig, msg := h.Local(rep, h.G.SeqOp(len(arr), []interface{}{"a"})); sig != "" {
+				return sig, msg
+			}
+		case k < 8:
+			if _, _, sig, msg := h.Local(rep, h.G.Op(rep)); sig != "" { // somewhere in the tree, often below an element
+				return sig, msg
+			}
+		case k < 11:
+			upto := rep.Recvd + r.Intn(len(h.Log.Entries)-rep.Recvd+2)
+			if sig, msg := h.Sync(rep, upto); sig != "" {
+				return sig, msg
+			}
+		default:
+			upto := rep.Recvd + r.Intn(len(h.Log.Entries)-rep.Recvd+1)
+			if sig, msg := h.DeliverOnly(rep, upto); sig != "" {
+				return sig, msg
+			}
+		}
+	}
+	return "", ""
+}
+
 func init() {
 	core.Register(&core.Prop{
 		ID:    "C01",
@@ -247,6 +282,40 @@ func runC01(c *core.Case) *core.Result {
 			return c.Violation(sig, "%s", msg)
 		}
 		q := 0
+		if sh.typ == "doc" && (c.Index/4)%3 == 0 {
+			// array-of-containers phase: one array under key "a" whose elements are objects,
+			// arrays and primitives, known to every replica; then dense multi-value updates /
+			// deletes / inserts of such values from all replicas, mixed with writes below the
+			// elements (an update that replaces a container another replica is writing into, a
+			// delete that meets a multi-value update carrying containers, ...)
+			var init []interface{}
+			for i := 0; i < 4+c.Rng.Intn(3); i++ {
+				switch c.Rng.Intn(3) {
+				case 0:
+					init = append(init, map[string]interface{}{"x": g.Tag(), "y": []interface{}{g.Tag()}})
+				case 1:
+					init = append(init, []interface{}{g.Tag(), map[string]interface{}{"z": g.Tag()}})
+				default:
+					init = append(init, g.Tag())
+				}
+			}
+			if _, err, sig, msg := h.Local(h.Reps[0], crdt.Op{Kind: "put", Key: "a", Val: init}); sig != "" || err != nil {
+				return c.Violation("doc:setup", "cannot create the array of containers: %v %s %s", err, sig, msg)
+			}
+			if sig, msg := h.Quiesce(); sig != "" {
+				return c.Violation("doc:"+sig, "%s", msg)
+			}
+			ub := g.UpdBias
+			g.UpdBias = 0.45
+			sig, msg := arrayContainerPhase(c, h, sh.steps)
+			g.UpdBias = ub
+			if sig != "" {
+				return c.Violation("doc:"+sig, "%s", msg)
+			}
+			if rep == 0 {
+				c.Count("array_of_containers_histories", 1)
+			}
+		}
 		if sig, msg := randomPhase(c, h, sh.steps, &q); sig != "" {
 			return c.Violation(sh.typ+":"+sig, "%s", msg)
 		}
